@@ -27,7 +27,7 @@ fn rand_validator(rng: &mut Rng) -> ClaimValidator {
             let oi = |rng: &mut Rng| if rng.chance(1, 3) { None } else { Some(*rng.pick(&[isize::MIN, -5, 0, 7, 18, isize::MAX])) };
             ClaimValidator::Range { min: oi(rng), max: oi(rng) }
         }
-        2 => ClaimValidator::regex_from_string(*rng.pick(&["^[a-c]+$", "\\d{2,4}", "^$", "é"])).unwrap(),
+        2 => ClaimValidator::regex_from_string(*rng.pick(&["^[a-c]+$", "\\d{2,4}", "^$", "é", "^.{1,4}$", ".", "[^a-z]", "\u{fffd}", "^a"])).unwrap(),
         _ => ClaimValidator::AnyOne(vec![HashedClaim::from("abc").into(), NumberClaim::from(7).into(), RevocationClaim::from("rev-1").into(), HashedClaim::from(vec![0xffu8, 0xfe]).into()]),
     }
 }
@@ -35,7 +35,8 @@ fn rand_validator(rng: &mut Rng) -> ClaimValidator {
 fn rand_claim(rng: &mut Rng, t: ClaimType) -> ClaimData {
     match t {
         ClaimType::Hashed => match rng.below(6) {
-            0 => HashedClaim::from(vec![0xffu8, 0xfe]).into(), // not UTF-8
+            // not UTF-8: alone, around text a pattern could match, truncated multi-byte sequence
+            0 => HashedClaim::from(rng.pick(&[vec![0xffu8, 0xfe], vec![0xff, b'1', b'2', b'3'], vec![b'a', b'b', 0xff], vec![b'a', 0xc3], vec![0xc3, 0x28], vec![0xed, 0xa0, 0x80]]).clone()).into(),
             1 => HashedClaim::from("").into(),
             _ => HashedClaim::from(*rng.pick(&["abc", "abcabc", "12", "12345", "é", "abcdefghij"])).into(),
         },
@@ -99,7 +100,101 @@ fn conformant(schema: &[ClaimSchema], revoked: &[String], claims: &[ClaimData]) 
     revs.len() == 1 && !revoked.contains(&revs[0])
 }
 
+
+/// one issuance attempt on the real issuer: model line, conformance oracle, checks on what is returned
+fn eval_case<S: ShortGroupSignatureScheme>(em: &mut Emitter, suite: &str, k: usize, cs: &CredentialSchema, schema_claims: &[ClaimSchema], issuer: &mut Issuer<S>, revoked: &[String], claims: &[ClaimData]) {
+    let claims = claims.to_vec();
+    let revoked = revoked.to_vec();
+    let schema_claims = schema_claims.to_vec();
+    let before = (issuer.revocation_registry.elements.clone(), issuer.revocation_registry.active.clone(), issuer.revocation_registry.value);
+    let res = call(|| issuer.sign_credential(&claims));
+    let want = conformant(&schema_claims, &revoked, &claims);
+    // model line: `revoked` flag is about this vector's (single) revocation identifier
+    let this_revoked = claims.iter().any(|c| matches!(c, ClaimData::Revocation(r) if revoked.contains(&r.value)));
+    let schema_tok = schema_claims
+        .iter()
+        .enumerate()
+        .map(|(i, c)| format!("{}~{}", type_name(c.claim_type), if c.validators.is_empty() { "-".to_string() } else { c.validators.iter().map(|v| validator_tok(v, claims.get(i))).collect::<Vec<_>>().join(",") }))
+        .collect::<Vec<_>>()
+        .join(";");
+    let claims_tok = if claims.is_empty() { "-".to_string() } else { claims.iter().map(claim_str).collect::<Vec<_>>().join(";") };
+    em.op(format!("is.sign {} {} {}", if this_revoked { 1 } else { 0 }, schema_tok, claims_tok), res.class());
+    em.oracle_case(&format!("{} {} {} {}", suite, k, schema_tok, claims_tok));
+    em.count(&format!("{}:{}", if want { "conformant" } else { "non-conformant" }, res.class()));
+    let replay = json!({"suite": suite, "schema": serde_json::to_value(&cs).unwrap_or_default(), "claims": serde_json::to_value(&claims).unwrap_or_default(), "revoked": revoked});
+    match (&res, want) {
+        (Out::Panic(m), _) => em.violation("c15:sign-panic", format!("{}: sign_credential panicked: {}", suite, m), replay.clone()),
+        (Out::Ok(_), false) => em.violation("c15:non-conformant-signed", format!("{}: a non-conformant claim vector was signed", suite), replay.clone()),
+        (Out::Err, true) => em.violation("c15:conformant-refused", format!("{}: a conformant claim vector was refused", suite), replay.clone()),
+        _ => {}
+    }
+    match &res {
+        Out::Ok(b) => {
+            let msgs: Vec<Scalar> = claims.iter().map(|c| c.to_scalar()).collect();
+            if b.credential.signature.verify(&b.issuer.verifying_key, &msgs).is_err() {
+                em.violation("c15:returned-signature-invalid", format!("{}: the returned credential's signature does not verify on the claims' encodings", suite), replay.clone());
+            }
+            let rid = claims.iter().find_map(|c| if let ClaimData::Revocation(r) = c { Some(r.value.clone()) } else { None }).unwrap_or_default();
+            if !b.credential.revocation_handle.verify(Element::hash(rid.as_bytes()), b.issuer.revocation_verifying_key, b.issuer.revocation_registry) {
+                em.violation("c15:returned-handle-invalid", format!("{}: the returned revocation handle does not verify against the published registry value", suite), replay.clone());
+            }
+            if b.credential.claims != claims {
+                em.violation("c15:returned-claims-differ", format!("{}: the returned credential carries other claims", suite), replay.clone());
+            }
+        }
+        Out::Err => {
+            let r = &issuer.revocation_registry;
+            if r.elements != before.0 || r.active != before.1 || r.value != before.2 {
+                em.violation("c15:error-issues-something", format!("{}: sign_credential returned an error but changed the registry", suite), replay.clone());
+            }
+        }
+        _ => {}
+    }
+}
+
+/// systematic grid: every catalogue validator × every catalogue value, on a two-claim schema [revocation, x]
+fn grid<S: ShortGroupSignatureScheme>(em: &mut Emitter, suite: &str) {
+    let rx = |p: &str| ClaimValidator::regex_from_string(p).unwrap();
+    let validators: Vec<ClaimValidator> = vec![
+        rx("^[a-c]+$"), rx("\\d{2,4}"), rx("^$"), rx("é"), rx("^.{1,4}$"), rx("."), rx("[^a-z]"), rx("\u{fffd}"), rx("^a"), rx("^\\d{2,4}$"), rx("(?s)^.*$"),
+        ClaimValidator::Length { min: None, max: None }, ClaimValidator::Length { min: Some(2), max: Some(3) }, ClaimValidator::Length { min: Some(3), max: Some(2) }, ClaimValidator::Length { min: None, max: Some(0) },
+        ClaimValidator::Range { min: None, max: None }, ClaimValidator::Range { min: Some(-5), max: Some(7) }, ClaimValidator::Range { min: Some(isize::MIN), max: Some(isize::MAX) }, ClaimValidator::Range { min: Some(7), max: Some(-5) },
+        ClaimValidator::AnyOne(vec![HashedClaim::from("abc").into(), NumberClaim::from(7).into(), HashedClaim::from(vec![0xffu8, b'1', b'2', b'3']).into()]),
+        ClaimValidator::AnyOne(vec![]),
+    ];
+    let hashed: Vec<Vec<u8>> = vec![b"".to_vec(), b"abc".to_vec(), b"12".to_vec(), b"123".to_vec(), "é".as_bytes().to_vec(), b"a".to_vec(), vec![0xff, 0xfe], vec![0xff, b'1', b'2', b'3'], vec![b'a', b'b', 0xff], vec![b'a', 0xc3],
+        vec![0xc3, 0x28], vec![0xed, 0xa0, 0x80], vec![0xff], vec![b'1', b'2', 0x80, b'3']];
+    let mut values: Vec<(ClaimType, ClaimData)> = hashed.into_iter().map(|h| (ClaimType::Hashed, HashedClaim::from(h).into())).collect();
+    for n in [isize::MIN, -6, -5, 0, 7, 8, isize::MAX] {
+        values.push((ClaimType::Number, NumberClaim::from(n).into()));
+    }
+    values.push((ClaimType::Scalar, ScalarClaim::from(Scalar::from(7u64)).into()));
+    values.push((ClaimType::Enumeration, EnumerationClaim { dst: "e".into(), value: 1, total_values: 3 }.into()));
+    let mut n = 0usize;
+    for (vi, v) in validators.iter().enumerate() {
+        for (t, val) in &values {
+            n += 1;
+            if !em.thorough() && !matches!(v, ClaimValidator::Regex(_)) && n % 2 == 0 {
+                continue;
+            }
+            let schema_claims = vec![
+                ClaimSchema { claim_type: ClaimType::Revocation, label: "id".into(), print_friendly: false, validators: vec![] },
+                ClaimSchema { claim_type: *t, label: "x".into(), print_friendly: false, validators: vec![v.clone()] },
+            ];
+            let cs = match CredentialSchema::new(Some("c15g"), None, &[], &schema_claims) {
+                Ok(s) => s,
+                Err(_) => continue,
+            };
+            let (_p, mut issuer) = Issuer::<S>::new(&cs);
+            let claims: Vec<ClaimData> = vec![RevocationClaim::from(format!("g{}", n).as_str()).into(), val.clone()];
+            em.count(&format!("grid:{}", match v { ClaimValidator::Regex(_) => "regex", ClaimValidator::Length { .. } => "length", ClaimValidator::Range { .. } => "range", ClaimValidator::AnyOne(_) => "anyone" }));
+            eval_case(em, suite, 100_000 + vi, &cs, &schema_claims, &mut issuer, &[], &claims);
+        }
+    }
+}
+
 fn run_suite<S: ShortGroupSignatureScheme>(em: &mut Emitter, rng: &mut Rng, suite: &str) {
+    grid::<S>(em, suite);
     let types = [ClaimType::Hashed, ClaimType::Number, ClaimType::Scalar, ClaimType::Revocation, ClaimType::Enumeration];
     for k in 0..em.n(120, 1500) {
         // schema: 1..5 claims, a revocation claim at a random position (sometimes none / two)
@@ -169,50 +264,7 @@ fn run_suite<S: ShortGroupSignatureScheme>(em: &mut Emitter, rng: &mut Rng, suit
                 }
                 _ => {}
             }
-            let before = (issuer.revocation_registry.elements.clone(), issuer.revocation_registry.active.clone(), issuer.revocation_registry.value);
-            let res = call(|| issuer.sign_credential(&claims));
-            let want = conformant(&schema_claims, &revoked, &claims);
-            // model line: `revoked` flag is about this vector's (single) revocation identifier
-            let this_revoked = claims.iter().any(|c| matches!(c, ClaimData::Revocation(r) if revoked.contains(&r.value)));
-            let schema_tok = schema_claims
-                .iter()
-                .enumerate()
-                .map(|(i, c)| format!("{}~{}", type_name(c.claim_type), if c.validators.is_empty() { "-".to_string() } else { c.validators.iter().map(|v| validator_tok(v, claims.get(i))).collect::<Vec<_>>().join(",") }))
-                .collect::<Vec<_>>()
-                .join(";");
-            let claims_tok = if claims.is_empty() { "-".to_string() } else { claims.iter().map(claim_str).collect::<Vec<_>>().join(";") };
-            em.op(format!("is.sign {} {} {}", if this_revoked { 1 } else { 0 }, schema_tok, claims_tok), res.class());
-            em.oracle_case(&format!("{} {} {} {}", suite, k, schema_tok, claims_tok));
-            em.count(&format!("{}:{}", if want { "conformant" } else { "non-conformant" }, res.class()));
-            let replay = json!({"suite": suite, "schema": serde_json::to_value(&cs).unwrap_or_default(), "claims": serde_json::to_value(&claims).unwrap_or_default(), "revoked": revoked});
-            match (&res, want) {
-                (Out::Panic(m), _) => em.violation("c15:sign-panic", format!("{}: sign_credential panicked: {}", suite, m), replay.clone()),
-                (Out::Ok(_), false) => em.violation("c15:non-conformant-signed", format!("{}: a non-conformant claim vector was signed", suite), replay.clone()),
-                (Out::Err, true) => em.violation("c15:conformant-refused", format!("{}: a conformant claim vector was refused", suite), replay.clone()),
-                _ => {}
-            }
-            match &res {
-                Out::Ok(b) => {
-                    let msgs: Vec<Scalar> = claims.iter().map(|c| c.to_scalar()).collect();
-                    if b.credential.signature.verify(&b.issuer.verifying_key, &msgs).is_err() {
-                        em.violation("c15:returned-signature-invalid", format!("{}: the returned credential's signature does not verify on the claims' encodings", suite), replay.clone());
-                    }
-                    let rid = claims.iter().find_map(|c| if let ClaimData::Revocation(r) = c { Some(r.value.clone()) } else { None }).unwrap_or_default();
-                    if !b.credential.revocation_handle.verify(Element::hash(rid.as_bytes()), b.issuer.revocation_verifying_key, b.issuer.revocation_registry) {
-                        em.violation("c15:returned-handle-invalid", format!("{}: the returned revocation handle does not verify against the published registry value", suite), replay.clone());
-                    }
-                    if b.credential.claims != claims {
-                        em.violation("c15:returned-claims-differ", format!("{}: the returned credential carries other claims", suite), replay.clone());
-                    }
-                }
-                Out::Err => {
-                    let r = &issuer.revocation_registry;
-                    if r.elements != before.0 || r.active != before.1 || r.value != before.2 {
-                        em.violation("c15:error-issues-something", format!("{}: sign_credential returned an error but changed the registry", suite), replay.clone());
-                    }
-                }
-                _ => {}
-            }
+            eval_case(em, suite, k, &cs, &schema_claims, &mut issuer, &revoked, &claims);
         }
         if k < 2 {
             em.sample(json!({"suite": suite, "schema": serde_json::to_value(&cs).unwrap_or_default()}));
